@@ -52,7 +52,9 @@ inline J random_ts(Rng& r) {
 }
 
 inline int64_t random_clock(Rng& r) {
-    switch (r.below(8)) {
+    switch (r.below(10)) {
+        case 8: return -2208988801LL;  // 1899-12-31 23:59:59: tm_year becomes negative
+        case 9: return 253402300799LL; // 9999-12-31 23:59:59
         case 0: return 946684799;     // 1999-12-31 23:59:59
         case 1: return 2147483647;    // 2038 rollover
         case 2: return 2147483648LL;
